@@ -10,6 +10,7 @@ import DesyncModel.Inv.RunReach
 import DesyncModel.Inv.OwnedReach
 import DesyncModel.Inv.JobMono
 import DesyncModel.Inv.WatchReach
+import DesyncModel.Inv.PendReach
 
 namespace Desync.C03
 open Desync Gen
@@ -187,5 +188,43 @@ theorem pool_locks_have_their_holders {s : State} (hr : ReachableNZ s) :
     (∀ b, (s.cl b).tlHeld = true → s.threadsLock = some b) ∧ (∀ b p, holdsBusy s b p → s.bl p = some b) :=
   let h := watchInv_reachable hr
   ⟨h.tl, h.bl.own⟩
+
+
+/-! ### a pending queue is on the schedule; a quiet system has nothing pending and nothing marked as running -/
+
+/-- **I_pending.**  A queue in the `Pending` state is on the schedule, or in the hands of a call that is about to put it
+there (`schedule_job_desync` / `reschedule_queue` between marking it pending and pushing it). -/
+theorem pending_queue_is_scheduled {s : State} (hr : Reachable s) {q : Nat} {v : JobQ} (hv : s.qs[q]? = some v) (hp : v.state = .pending) :
+    q ∈ s.schedule ∨ ∃ a, (s.pcAt a).pushes q = true :=
+  (pendInv_reachable hr).pend q (by rw [qSt_of hv, hp])
+
+/-- every call has returned and every pool thread is waiting for a message, with no message in flight -/
+def AllQuiet (s : State) : Prop :=
+  (∀ a, s.pcAt a = .ret ∨ s.pcAt a = .dead ∨ ∃ p, s.pcAt a = .ptRecv p ∨ s.pcAt a = .ptRecvd p) ∧
+  (∀ (p : Nat) (pt : PThr), s.pthreads[p]? = some pt → pt.mailbox = 0)
+
+/-- **Whenever all threads have gone quiet, nothing remains scheduled, pending or marked as running** (C03, last sentence;
+the bookkeeping half: the queue states that remain are `Idle`, a queue parked on an external event that has not happened,
+a queue waiting for a future nobody polls, and `Panicked`). -/
+theorem quiet_means_nothing_pending_or_running {s : State} (hr : ReachableNZ s) (hq : AllQuiet s) :
+    s.schedule = [] ∧ ∀ (q : Nat) (v : JobQ), s.qs[q]? = some v → v.state ≠ .pending ∧ v.state.held = false := by
+  have hcl : ∀ a, s.cl a = .neutral ∨ (s.cl a).rest = true := by
+    intro a
+    rcases hq.1 a with h | h | ⟨p, h | h⟩ <;> simp [State.cl, h, Pc.cls, PCls.rest]
+  have hsch := quiet_pool_has_empty_schedule hr hcl hq.2
+  refine ⟨hsch, ?_⟩
+  intro q v hv
+  constructor
+  · intro hp
+    rcases pending_queue_is_scheduled hr.reachable hv hp with h1 | ⟨a, h1⟩
+    · rw [hsch] at h1; cases h1
+    · rcases hq.1 a with h | h | ⟨p, h | h⟩ <;> (rw [h] at h1; simp [Pc.pushes] at h1)
+  · refine no_orphaned_running_queue hr.reachable ?_ hv
+    intro a q'
+    rcases hq.1 a with h | h | ⟨p, h | h⟩ <;> simp [h, Pc.holds]
+
+/-- the premises are satisfiable: the initial state is reachable and quiet -/
+example : ReachableNZ (initState 2 1 3) ∧ AllQuiet (initState 2 1 3) :=
+  ⟨ReachableNZ.init 2 1 3 (by decide), fun a => Or.inr (Or.inl (by simp [State.pcAt, initState])), fun p pt h => by simp [initState] at h⟩
 
 end Desync.C03
